@@ -21,6 +21,7 @@ type StoreCfg struct {
 	GCLimitMs   int64  `json:"gclim_ms,omitempty"` // 0 = default
 	Flusher     bool   `json:"flusher,omitempty"`  // call Start()
 	ShortKeys   bool   `json:"short_keys,omitempty"`
+	SyncOnFlush bool   `json:"sync_on_flush,omitempty"` // fsync the three files as part of every flush
 }
 
 // Op is one generated operation.
@@ -131,6 +132,7 @@ func genCfg(r *simrt.Rand, thorough bool) StoreCfg {
 	c.PrimaryFile = fileSizes[r.Weighted([]int{10, 10, 10, 10, 10, 10, 8, 6, 20})]
 	c.FileCache = []int{0, 1, 2, 512}[r.Weighted([]int{2, 2, 2, 4})]
 	c.ShortKeys = r.Chance(0.1)
+	c.SyncOnFlush = r.Chance(0.15)
 	return c
 }
 
